@@ -333,6 +333,21 @@ pub fn run(ctx: &Ctx) -> Report {
         }
     });
     acc.into_report(&mut rep, "hard_limit");
+    // feeding on at sizes near u64::MAX: the size counter must not wrap around into the accepted range
+    let acc = par_shards(6 * 5, |i, acc| {
+        let start = u64::MAX - [0u64, 1, 6, 7, 8, 500][i / 5];
+        let form = FORMS[i % 5];
+        let case = json!({"zero_prefix": start, "hint": null, "chunks": [{"word": hex(&corpus::W[3]), "count": 70, "form": form_name(form)}]});
+        acc.evaluations += 1;
+        acc.nontrivial += 1;
+        if let Err(e) = run_case(&case) {
+            acc.violation(format!("size counter near u64::MAX start={} {}", start, form_name(form)), e, case.clone());
+        }
+        if i == 0 {
+            acc.sample(case);
+        }
+    });
+    acc.into_report(&mut rep, "size_counter_saturates_near_u64_max");
     let acc = par_shards(8201 + 31 * 5, |i, acc| {
         let size = if i <= 8200 {
             i as u64
